@@ -148,6 +148,16 @@ def integrateGL (f : Rat → Rat) (a b : Rat) (n : Nat) (z pp : Nat → Rat) : E
 def integSeq (f : Rat → Rat) (z pp : Nat → Nat → Rat) (reqs : List (Nat × Rat × Rat)) : List (Except Err Rat) :=
   reqs.map (fun r => integrateGL f r.2.1 r.2.2 r.1 (z r.1) (pp r.1))
 
+/-- re-entrant use of the integrating overload: the integrand of an outer `Integrate_Gauss_Legendre(F,a,b,nOut)`
+    is itself `F x = Integrate_Gauss_Legendre(g x, lo x, hi x, nIn)` with limits that depend on the outer variable
+    (iterated integral over a non-rectangular region).  The C++ functions take their rule by value and keep no
+    state, so the inner calls cannot disturb the outer loop. -/
+def valueOf (r : Except Err Rat) : Rat := match r with | .ok v => v | .error _ => 0
+
+def nestedGL (g : Rat → Rat → Rat) (lo hi : Rat → Rat) (a b : Rat) (nOut nIn : Nat) (z pp : Nat → Nat → Rat) :
+    Except Err Rat :=
+  integrateGL (fun x => valueOf (integrateGL (g x) (lo x) (hi x) nIn (z nIn) (pp nIn))) a b nOut (z nOut) (pp nOut)
+
 /-- the quadrature sum `Σ_{k<n} f(x_k) w_k` written directly -/
 def glSum (f : Rat → Rat) (n : Nat) (xmin xmax : Rat) (z pp : Nat → Rat) : Rat :=
   (List.range n).foldl (fun acc k => acc + f (node n xmin xmax z pp k) * weight n xmin xmax z pp k) 0
